@@ -170,14 +170,15 @@ class Roles:
             self.mem_read[n] = facts.method(AXE, "mem_read_%d" % n)["path"]
             self.mem_write[n] = facts.method(AXE, "mem_write_%d" % n)["path"]
         # 128-bit: the host-visible public wrappers and the crate-internal workers
-        self.reg_read[128] = facts.method(AXE, "internal_reg_read_128")["path"]
-        self.reg_write[128] = facts.method(AXE, "internal_reg_write_128")["path"]
-        self.mem_read[128] = facts.method(AXE, "internal_mem_read_128")["path"]
-        self.mem_write[128] = facts.method(AXE, "internal_mem_write_128")["path"]
         self.reg_read_pub128 = facts.method(AXE, "reg_read_128")["path"]
         self.reg_write_pub128 = facts.method(AXE, "reg_write_128")["path"]
         self.mem_read_pub128 = facts.method(AXE, "mem_read_128")["path"]
         self.mem_write_pub128 = facts.method(AXE, "mem_write_128")["path"]
+        # the crate-internal 128-bit workers: whatever same-arity method each public wrapper forwards to
+        self.reg_read[128] = self._worker(self.reg_read_pub128, "internal_reg_read_128")
+        self.reg_write[128] = self._worker(self.reg_write_pub128, "internal_reg_write_128")
+        self.mem_read[128] = self._worker(self.mem_read_pub128, "internal_mem_read_128")
+        self.mem_write[128] = self._worker(self.mem_write_pub128, "internal_mem_write_128")
         self.mem_read_bytes = facts.method(AXE, "mem_read_bytes")["path"]
         self.mem_write_bytes = facts.method(AXE, "mem_write_bytes")["path"]
         # by signature
@@ -215,6 +216,41 @@ class Roles:
                 var = self._trace_variant(b)
                 if var is not None:
                     self.tracers[k] = var
+
+    def _worker(self, pub, fallback_name):
+        b = self.F.bodies[pub]
+        c = set()
+        for blk in b["blocks"]:
+            t = blk["term"]
+            if t["k"] == "call":
+                cb = self.F.bodies.get(F.callee_name(t))
+                if cb is not None and not cb["glue"] and cb.get("impl_self") == AXE and cb["argc"] == b["argc"] \
+                        and cb["path"] != pub:
+                    c.add(cb["path"])
+        if len(c) == 1:
+            return c.pop()
+        return self.F.method(AXE, fallback_name)["path"]
+
+    def decoders(self):
+        """(decode_next, decode_at, fetch): the methods returning Result<Instruction, _> taking (&self) / (&self, u64),
+        and the (&self, u64) -> Result<Vec<u8>, _> method the latter calls to fetch code bytes"""
+        ng = {k: b for k, b in self.F.bodies.items() if not b["glue"] and b["kind"] != "Closure" and b.get("impl_self") == AXE}
+        is_instr = lambda t: _is_adt(t, "iced_x86::Instruction")
+        nxt = [k for k, b in ng.items() if len(sig(b)) == 2 and _is_result_of(sig(b)[0], is_instr) and _is_self(sig(b)[1])]
+        at = [k for k, b in ng.items() if len(sig(b)) == 3 and _is_result_of(sig(b)[0], is_instr) and _is_self(sig(b)[1])
+              and sig(b)[2] == ["u", 64]]
+        dn = nxt[0] if len(nxt) == 1 else self.F.method(AXE, "decode_next")["path"]
+        da = at[0] if len(at) == 1 else self.F.method(AXE, "decode_at")["path"]
+        fetch = set()
+        for blk in self.F.bodies[da]["blocks"]:
+            t = blk["term"]
+            if t["k"] == "call":
+                cb = ng.get(F.callee_name(t))
+                if cb is not None and len(sig(cb)) == 3 and sig(cb)[2] == ["u", 64] and _is_self(sig(cb)[1]) \
+                        and "Vec" in repr(sig(cb)[0]) and cb["path"] != self.mem_read_bytes:
+                    fetch.add(cb["path"])
+        fe = fetch.pop() if len(fetch) == 1 else self.F.method(AXE, "mem_read_executable_bytes")["path"]
+        return dn, da, fe
 
     def _one(self, ng, pred, what):
         c = [k for k, b in ng.items() if pred(sig(b))]
